@@ -2,6 +2,9 @@
 # usage: tools/try_seed.sh <patch.diff> <prop> [<prop>...]   — apply a seeded change to /repo, run the checks, undo it
 patch="$1"; shift
 cd /verif
+if [ -n "$(git -C /repo status --porcelain)" ]; then echo "/repo not clean"; exit 2; fi
+# whatever ends this script (also a closed pipe behind it), /repo gets its working tree back
+trap 'git -C /repo checkout -- . 2>/dev/null' EXIT INT TERM PIPE HUP
 git -C /repo apply "$patch" || { echo "patch does not apply"; exit 2; }
 for p in "$@"; do
   echo "== $p with $(basename $(dirname $patch))"
